@@ -555,7 +555,7 @@ Section HistoryVC.
     destruct (fold_clear_good _ s s1 Hg Hs1) as [Hg1 _].
     pose proof (fold_clear_vc _ s s1 Hv Hs1) as Hv1.
     change (fold_left (gd_step (F := F))
-              (combine params (map (fun h => match grad_of s h with None => true | Some _ => false end) params))
+              (combine params (frozen_flags s [] params))
               (Some (s1, sgd_zip O lr (concat pv) (concat pg), [])) = Some (s2, buf3, out)) in Hfold.
     eapply fold_gd_vc; eassumption.
   Qed.
